@@ -114,21 +114,32 @@ def sig_fn(tr, event, stuck):
     st = (stuck or {}).get("st") or {}
     sig: Dict[str, Any] = {"what": event.get("q") or event.get("kind") or "", "ok": bool(event.get("ok"))}
     if event.get("ev") in ("Restore", "Backup"):
-        sig["bk_block"] = tr["meta"].get("bk_block") if isinstance(st, dict) and st.get("bkPath") is False else ""
-        sig["backup"] = st.get("backup") if isinstance(st, dict) else None
-        sig["file_after"] = event.get("file")
+        blocked = isinstance(st, dict) and st.get("bkPath") is False
+        sig["bk_block"] = tr["meta"].get("bk_block") if blocked else ""
+        before = st.get("file") if isinstance(st, dict) else None
+        sig["effect"] = "file_lost" if event.get("file") == "absent" and before != "absent" else (
+            "file_replaced" if event.get("ok") else "none")
     if event.get("ev") == "Raised":
         sig["exception"] = (tr["meta"].get("exception") or "")[:120]
     return sig
 
 
 def _mc(chk, tier: str):
-    r = tlc.mc("MC_Database", timeout=900)
+    # the exhaustive run (coverage statistics off: they double the run time) ...
+    r = tlc.mc("MC_Database", timeout=900, coverage=False)
     if not r["ok"]:
         chk.violation({"module": "MC_Database", "clause": str(r["violation"])}, {"tlc": r["output_tail"]})
-    chk.add_mc("MC_Database(2 clients, Cap=2, 3 ids + forged, depth 7)", r)
+    # ... and the per-action coverage of the same model at a smaller depth (an action taken within 4 steps
+    # is taken within 7)
+    rc = tlc.mc("MC_Database", cfg="MC_DatabaseCov.cfg", timeout=600)
+    if not rc["ok"]:
+        chk.violation({"module": "MC_DatabaseCov", "clause": str(rc["violation"])}, {"tlc": rc["output_tail"]})
+    r["coverage"] = rc["coverage"]
+    chk.add_mc("MC_Database(2 clients, Cap=2, 3 ids + forged, depth 7; action counts from the depth-4 run)", r)
+    chk.cov["states"] += rc.get("distinct", 0)
+    chk.cov["transitions"] += rc.get("states", 0)
     for act in MC_ACTIONS:
-        if r["coverage"].get(act, (0, 0))[1] == 0:
+        if rc["coverage"].get(act, (0, 0))[1] == 0:
             raise tlc.TLCError(f"vacuous model: action {act} never taken")
     if tier == "thorough":
         # the complete state space (no depth bound) for 2 ids + forged, capacities 1 and 2
